@@ -173,6 +173,7 @@ def child_run(path, actions, finish, hmode='r+', pset=0):
     model = np.arange(N, dtype='<i8') * 3 + 1
     gens, frames, pos = {}, {}, {}
     ctxs = []
+    held = []        # generator objects the caller closed but still holds (a closed generator must not keep the file open either)
 
     def check_chunk(g, chunk):
         fr = frames[g]
@@ -190,6 +191,7 @@ def child_run(path, actions, finish, hmode='r+', pset=0):
         gen = gens.pop(g)
         if how == 'close':
             gen.close()
+            held.append(gen)
         elif how == 'drop':
             del gen
             gc.collect()
@@ -281,6 +283,7 @@ def child_run(path, actions, finish, hmode='r+', pset=0):
     gc.collect()
     fds, maps = open_fds_for(path), maps_for(path)
     if fds or maps:
+        del held
         return {'kind': 'descriptor-leak', 'callsite': 'end-of-schedule', 'detail': f'still open after all generators and contexts finished: fds={fds} maps={maps[:1]}'}
     import darr as d2
     fresh = d2.Array(path)[:]
@@ -406,8 +409,8 @@ def wellformed(L):
 def enum_specs(L):
     for acts in wellformed(L):
         # interesting only if a generator was both started and advanced, or a context is involved together with a generator
-        if not any(a[0] == 'next' for a in acts):
-            continue
+        if not any(a[0] == 'next' for a in acts) and (len(acts) > 3 or not any(a[0] in ('close', 'drop') for a in acts)):
+            continue        # (without an advance only the short start/close/drop patterns are of interest: never-advanced generators)
         # two finishing orders for the survivors
         yield {'actions': acts, 'finish': [['exhaust', 0], ['exhaust', 1], ['exit']]}
         yield {'actions': acts, 'finish': [['exit'], ['exhaust', 1], ['close', 0]]}
